@@ -52,8 +52,8 @@ pub unsafe extern "C" fn redirectionio_log_init_with_callback(callback: redirect
     };
 
     INIT.call_once(|| {
-        log::set_boxed_logger(Box::new(logger))
-            .map(|()| log::set_max_level(log::LevelFilter::Trace))
-            .expect("cannot set logger");
+        // a logger may already be installed (redirectionio_log_init_stderr, or the host): keep it.
+        // Panicking here would abort the host process, this is an extern "C" function
+        let _ = log::set_boxed_logger(Box::new(logger)).map(|()| log::set_max_level(log::LevelFilter::Trace));
     });
 }
